@@ -40,6 +40,9 @@ QUICK = [
     # periodic asset whose duration blocks coincide with the split intervals (every interval grid starts exactly on a duration border)
     _c('periodic_contract_split_on_duration_borders', 'periodic', dict(T=8, kind='contract', ec=True, duration='4h'), '4h'),
     _c('periodic_transport_split_on_duration_borders', 'periodic', dict(T=8, kind='transport', eff=0.5, duration='4h'), '4h'),
+    # an interval in which no asset is active at all (all assets start later / end earlier): the split problem is the unsplit one
+    _c('first_interval_without_any_asset', 'windows', dict(T=4, wins=((2, 4), (2, 4), (3, 4))), '2h'),
+    _c('middle_interval_without_any_asset', 'windows', dict(T=6, wins=((0, 2), (0, 1), (4, 6), (5, 6))), '2h'),
     _c('take_spans_intervals', 'uncoupled', dict(T=4, take=(1, 4)), '2h', True),
     _c('take_spans_intervals_asset_with_own_dates', 'uncoupled', dict(T=4, take=(0, 4), own_dates=True), '2h', True),
     _c('orderbook_last_trailing', 'orderbook', dict(T=4, storage=False, ob_last=True, orders=((0, 1, 2.0), (2, 4, -1.5), (3, 4, 1.0))), '2h'),
@@ -123,8 +126,27 @@ def run_forms(rec, seed, shape, kw, split, what, alt):
     return rec.result()
 
 
-def interval_steps(tg, split):
-    """independent recomputation: grid steps of each non-empty interval, in order"""
+def _active(portf, tg, t):
+    """is any asset of the portfolio active in grid step t, judged from the windows the user gave (a wrapper without window: always)"""
+    tp = tg.timepoints[t]
+    for a in portf.assets:
+        lo, hi = getattr(a, 'start', None), getattr(a, 'end', None)
+        ok = True
+        for bound, is_lo in ((lo, True), (hi, False)):
+            if bound is None:
+                continue
+            b_ = pd.Timestamp(bound)
+            if b_.tzinfo is None and tg.tz is not None:
+                b_ = b_.tz_localize(tg.tz)
+            ok = ok and ((tp >= b_) if is_lo else (tp < b_))
+        if ok:
+            return True
+    return False
+
+
+def interval_steps(tg, split, portf=None):
+    """independent recomputation: grid steps of each non-empty interval, in order (portf given: only intervals in which some asset is active --
+    an interval without any variable is nothing to optimise and has no interval problem)"""
     start, end = tg.start, tg.end
     pts = list(pd.date_range(start=start, end=end, freq=split, tz=tg.tz))
     if not pts or pts[0] != start:
@@ -134,7 +156,7 @@ def interval_steps(tg, split):
     out = []
     for a, b in zip(pts[:-1], pts[1:]):
         st = [t for t in range(tg.T) if a <= tg.timepoints[t] < b]
-        if st:
+        if st and (portf is None or any(_active(portf, tg, t) for t in st)):
             out.append(st)
     return out
 
@@ -180,9 +202,8 @@ def split_mapping_check(sc, tg, ivs):
     """structure of the split mapping vs the interval problems' own mappings (see module docstring, Q2)"""
     ok = True
     why = ''
-    covered = [t for st in ivs for t in st]
-    if covered != list(range(tg.T)):
-        ok, why = False, 'harness intervals do not cover the grid'
+    if any(len(op.c) == 0 for op in sc.ops):
+        return False, 'an interval problem has no variable at all (no asset is active in the interval): the solver cannot be called on it'
     if len(sc.ops) != len(ivs):
         ok, why = False, '%d interval problems, %d non-empty intervals expected' % (len(sc.ops), len(ivs))
     else:
@@ -254,7 +275,7 @@ def run_case(case_id, tier, seed, shape, kw, split, coupled):
         sc, sc2 = path.result
         tg = sc.sh.tg
         base = list(D.pre) + path.pc + sym.atom_constraints()
-        ivs = interval_steps(tg, split)
+        ivs = interval_steps(tg, split, sc.sh.portf)
         ok, why = split_mapping_check(sc, tg, ivs)
         nm = P + '/mapping_refers_to_original_grid'
         rec.obligations.append(dict(name=nm, verdict='unsat' if ok else 'sat', secs=0, form='Q2'))
@@ -300,11 +321,15 @@ def observe(case, kwargs, env, rq):
     o = scen.observation(sc)
     if rq.get('kind') == 'replay':
         sc2 = scen.run(D, kwargs['shape'], kwargs['kw'], split=None, with_output=False, env=env)
-        res_s = sc.op.optimize()
+        try:
+            res_s = sc.op.optimize()
+        except Exception as e:  # noqa: BLE001 - the split optimisation itself raises: reported as such (the unsplit optimum below decides whether it should)
+            res_s = 'raised'
+            o['split_error'] = '%s: %s' % (type(e).__name__, str(e)[:160])
         o['v_split'] = None if isinstance(res_s, str) else float(res_s.value)
         o['s_split'] = res_s if isinstance(res_s, str) else 'optimal'
         o['v_unsplit'], o['s_unsplit'] = embed_lp.optimum(sc2.op)
-        o['ivs'] = interval_steps(sc.sh.tg, kwargs['split'])
+        o['ivs'] = interval_steps(sc.sh.tg, kwargs['split'], sc.sh.portf)
         info = rq.get('info', {})
         if info.get('kind') == 'emb':
             try:
@@ -345,9 +370,13 @@ def judge(case, kwargs, cand, ans):
         from .. import replay
         d = replay.diff(o['first'], o['second'])
         return (True, 'the two ways of asking for the same split give different interval problems: %s' % d) if d else (False, 'identical on the unshimmed code')
+    if o.get('split_error') and o.get('s_unsplit') == 'optimal':
+        return True, 'the split optimisation raises (%s) while the unsplit problem is solved (value %.6g)' % (o['split_error'], o['v_unsplit'])
     if info.get('kind') == 'mapping':
         # re-evaluate the structural statement on the unshimmed split problem
         probs, gm, ivs = o['problems'], o['split_mapping'], o['ivs']
+        if any(len(p['c']) == 0 for p in probs):
+            return True, 'an interval problem without any variable is handed to the solver'
         if len(probs) != len(ivs):
             return True, '%d interval problems for %d non-empty intervals' % (len(probs), len(ivs))
         off = pos = 0
